@@ -28,6 +28,7 @@ def run(fx, rep, tier):
     rule_sameidx(fx, rep)
     rule_fill(fx, rep)
     rule_between(fx, rep)
+    rule_origin(fx, rep)
     rule_magic(fx, rep)
 
 
@@ -335,6 +336,75 @@ def rule_fill(fx, rep):
     rep.rule("C07-FILL", n, 0, ok, "filler covers every blocker subset of every square")
 
 
+# ---- C07-ORIGIN ----------------------------------------------------------------------------
+
+
+def rule_origin(fx, rep):
+    """A leaper's attack set never contains the square it stands on: in the king / knight / pawn attack generators the unshifted
+    origin bit (`square.bb()`) reaches the result only through step functions, never through plain `|`. (Move generation masks
+    the origin away, so perft cannot see it; the king-safety term counts it and indexes a 9-entry table with the count.)"""
+    ok = True
+    n = 0
+    for b in fx.fn_bodies():
+        nb = norm(b.name)
+        if not nb.startswith("chess::movegen::tables::attacks::generate_") or b.kind != "Fn" or "::tests::" in nb:
+            continue
+        tys = [b.local_ty(i) for i in range(1, b.arg_count + 1)]
+        if not tys or tys[0] != "chess::square::Square" or any(t == "chess::bitboard::Bitboard" for t in tys) or b.local_ty(0) != "chess::bitboard::Bitboard":
+            continue  # sliders take an occupancy and are decided by C07-MAGIC / C07-FILL
+        T = set()
+        refs = {}  # ref local -> target local
+        changed = True
+        rounds = 0
+        while changed and rounds < 50:
+            changed = False
+            rounds += 1
+            for bb, j, st in b.stmts():
+                if st["k"] != "assign" or st["lhs"].get("p"):
+                    continue
+                l = st["lhs"]["l"]
+                rv = st["rv"]
+                if rv["k"] in ("ref", "rawptr") and not rv["pl"].get("p"):
+                    refs[l] = rv["pl"]["l"]
+                srcs = []
+                if rv["k"] == "use" and "pl" in rv["op"]:
+                    srcs = [rv["op"]["pl"]["l"]]
+                elif rv["k"] == "binop" and rv["op"] == "BitOr":
+                    srcs = [o["pl"]["l"] for o in (rv["a"], rv["b"]) if "pl" in o]
+                elif rv["k"] == "agg" and len(rv.get("ops", [])) == 1 and "pl" in rv["ops"][0]:
+                    srcs = [rv["ops"][0]["pl"]["l"]]
+                if any(x in T for x in srcs) and l not in T:
+                    T.add(l)
+                    changed = True
+            for bb, t in b.calls():
+                cn = norm(callee_name(t) or "")
+                dest = t["dest"]["l"] if not t["dest"].get("p") else None
+                argl = [a["pl"]["l"] if "pl" in a else None for a in t["args"]]
+                if cn.endswith("Square::bb") and argl and argl[0] is not None:
+                    # the origin bit itself
+                    if dest is not None and dest not in T:
+                        T.add(dest)
+                        changed = True
+                elif cn.endswith("BitOr>::bitor"):
+                    if dest is not None and any(x in T for x in argl if x is not None) and dest not in T:
+                        T.add(dest)
+                        changed = True
+                elif cn.endswith("BitOrAssign>::bitor_assign"):
+                    tgt = refs.get(argl[0]) if argl and argl[0] is not None else None
+                    if tgt is not None and len(argl) > 1 and argl[1] in T and tgt not in T:
+                        T.add(tgt)
+                        changed = True
+        n += 1
+        good = 0 not in T
+        rep.obligation(good)
+        rep.sample({"rule": "C07-ORIGIN", "generator": nb.split("::")[-1], "origin_in_result": not good})
+        if not good:
+            ok = False
+            rep.violation("C07-ORIGIN", f"C07-ORIGIN/{nb.split('::')[-1]}", f"`{b.name}` ors the unshifted origin square into its result: the attack set of every square then contains the square itself, which is not the geometric definition",
+                          {"fn": b.name, "file": b.file, "line": b.line})
+    rep.rule("C07-ORIGIN", n, 3, ok, "leaper attack sets exclude the origin square")
+
+
 # ---- C07-BETWEEN ---------------------------------------------------------------------------
 
 
@@ -565,6 +635,8 @@ def rule_magic(fx, rep):
 MG = "src/chess/movegen/tables/magics.rs"
 BB = "src/chess/bitboard.rs"
 MUTANTS = [
+    {"name": "king attacks built as a row smear that keeps the origin (seed C07-4b)", "expect": "C07-ORIGIN/generate_king_attacks",
+     "edits": [("src/chess/movegen/tables/attacks.rs", "    for direction in Direction::ALL {\n        attacks |= sq.in_direction(*direction);\n    }\n\n    attacks", "    let _ = &mut attacks;\n    let row = sq | sq.east() | sq.west();\n    row | row.north() | row.south()")]},
     {"name": "squares-between loses its diagonal alignment test (shape of seed C07-3)", "expect": "C07-BETWEEN",
      "edits": [("src/chess/movegen/tables/between.rs", "    if s1.file().idx().abs_diff(s2.file().idx()) == s1.rank().idx().abs_diff(s2.rank().idx()) {", "    if s1.file() != s2.file() {")]},
     {"name": "rook filler skips the fully occupied subset (seed C07-2)", "expect": "C07-FILL/rook",
